@@ -194,7 +194,18 @@ static RouteResult run_route(char kind, bool mem, const std::vector<uint8_t>& fi
             r.bytes = hex(SB_BUFFER(tr.buffer), sb_buffer_size(&tr.buffer));
             r.owned = !sb_buffer_is_view(&tr.buffer);
             r.battery = battery_traj(&tr);
+            // the same for a trajectory player made before the trajectory is cleared
+            sb_trajectory_player_t livep;
+            bool have_livep = sb_trajectory_player_init(&livep, &tr) == SB_SUCCESS;
+            sb_vector3_with_yaw_t lv;
+            if (have_livep)
+                (void)sb_trajectory_player_get_position_at(&livep, 1.0f, &lv);
             sb_error_t crc = sb_trajectory_clear(&tr);
+            if (have_livep) {
+                for (float tt : { 0.0f, 1.5f, 100.0f, 0.5f })
+                    (void)sb_trajectory_player_get_position_at(&livep, tt, &lv);
+                sb_trajectory_player_destroy(&livep);
+            }
             r.cleared = std::to_string((int)crc) + "|" + battery_traj(&tr);
             sb_trajectory_destroy(&tr);
         }
@@ -206,7 +217,18 @@ static RouteResult run_route(char kind, bool mem, const std::vector<uint8_t>& fi
             r.bytes = hex(SB_BUFFER(prog.buffer), sb_buffer_size(&prog.buffer));
             r.owned = !sb_buffer_is_view(&prog.buffer);
             r.battery = battery_light(&prog, true);
+            // a player made before the program is cleared may go on being asked: whatever it answers (not compared), it must
+            // not touch memory the library has released
+            sb_light_player_t live;
+            bool have_live = sb_light_player_init(&live, &prog) == SB_SUCCESS;
+            if (have_live)
+                (void)sb_light_player_get_color_at(&live, 10);
             sb_light_program_clear(&prog);
+            if (have_live) {
+                for (unsigned long ts : { 0UL, 20UL, 1000UL, 60000UL, 5UL })
+                    (void)sb_light_player_get_color_at(&live, ts);
+                sb_light_player_destroy(&live);
+            }
             r.cleared = battery_light(&prog, true);
             sb_light_program_destroy(&prog);
         }
